@@ -43,7 +43,8 @@ type recvT struct {
 }
 
 func recvTypes() []recvT {
-	strs := []*D{h.Str("abc"), h.Str(""), h.Str("hello world"), h.Str("a-b")}
+	// … multi-byte text, and texts that are JSON values of every kind (a decoder may be applied to them)
+	strs := []*D{h.Str("abc"), h.Str(""), h.Str("hello world"), h.Str("a-b"), h.Str("日本語"), h.Str("héllo wörld"), h.Str("true"), h.Str("\"quoted\""), h.Str("{\"k\":\"v\"}"), h.Str("[1,2]"), h.Str("null")}
 	nums := []*D{h.FloatD(0), h.FloatD(2.5), h.FloatD(-3), h.FloatD(100)}
 	bools := []*D{h.Bool(true), h.Bool(false)}
 	objs := []*D{h.Obj("k", h.Str("v")), h.Obj("k", h.Str(""))}
@@ -165,6 +166,10 @@ func c14(c *Ctx) {
 					}
 				} else {
 					argLists, conf = append(argLists, base), append(conf, true)
+					if len(d.Params) == 1 && d.Params[0].Type == mpath.PT_Number && d.ValidOn.Type == mpath.PT_String {
+						// counts between the number of characters and the number of bytes of multi-byte text, and beyond
+						argLists, conf = append(argLists, []string{"5"}, []string{"8"}, []string{"12"}), append(conf, true, true, true)
+					}
 					argLists, conf = append(argLists, append(append([]string{}, base...), "1")), append(conf, false)   // one too many
 					argLists, conf = append(argLists, append(append([]string{}, base...), "$.a")), append(conf, false) // … the surplus one a path of type Any
 					argLists, conf = append(argLists, append(append([]string{}, base...), "$.s")), append(conf, false) // … or a typed path
